@@ -54,6 +54,19 @@ func runC12(c *Config, r *Report) {
 	c12R11(ic, r)
 	c12R13(ic, r)
 	{
+		// R12.14 = R06.15: an ill-typed program that makes a compile pass fault is rejected with
+		// an error, not with a panic of the host
+		sub := newReport("C06")
+		c06R1(ic, sub)
+		for _, o := range sub.Obls {
+			if o.Rule == "R06.15" {
+				o.Rule = "R12.14"
+				r.add(o)
+			}
+		}
+		r.Errors = append(r.Errors, sub.Errors...)
+	}
+	{
 		sub := newReport("C03")
 		c03R4(ic, sub)
 		c03R8(ic, sub)
